@@ -207,17 +207,71 @@ func ruleOU2(c *Ctx) {
 		nStdout += nJSON - 1
 	}
 	c.check(okStderr && nStdout == 0, "main.exitErr", "explains-on-stderr", c.FnPos(ee), "the error is written to os.Stderr unconditionally; stdout gets nothing but at most one JSON error object behind --json", fmt.Sprintf("stderr-first=%v stdout-writes=%d", okStderr, nStdout))
-	// SilenceErrors / SilenceUsage
-	init := c.Main.Func("init")
+	// SilenceErrors / SilenceUsage on the command object whose Execute runs: set where the object is built (a
+	// package-level literal finished in init, or a constructor function)
 	silE, silU := false, false
-	if init != nil {
-		eachInstr(init, func(r instrRef) {
+	rootObjs := map[ssa.Value]bool{}
+	var objectsOf func(v ssa.Value, d int)
+	objectsOf = func(v ssa.Value, d int) {
+		if v == nil || d > 6 {
+			return
+		}
+		v = strip(v)
+		switch x := v.(type) {
+		case *ssa.Alloc:
+			rootObjs[x] = true
+		case *ssa.UnOp:
+			if g, ok := x.X.(*ssa.Global); ok && x.Op == token.MUL {
+				for _, f := range c.Fns {
+					eachInstr(f, func(r instrRef) {
+						if st, ok := r.In.(*ssa.Store); ok && st.Addr == ssa.Value(g) {
+							objectsOf(st.Val, d+1)
+						}
+					})
+				}
+			} else if cell := cellOf(x.X); cell != nil {
+				for _, st := range cellStores(cell) {
+					objectsOf(st.Val, d+1)
+				}
+			}
+		case *ssa.Phi:
+			for _, e := range x.Edges {
+				objectsOf(e, d+1)
+			}
+		case *ssa.Call:
+			if cal := calleeOf(&x.Call); cal != nil && c.InModule(cal) && cal.Blocks != nil {
+				for _, r := range returnsOf(cal) {
+					if len(r.Results) > 0 {
+						objectsOf(returnedValue(r, 0), d+1)
+					}
+				}
+			}
+		}
+	}
+	for _, f := range c.Fns {
+		if Outermost(f).Pkg != c.Main {
+			continue
+		}
+		for _, call := range callsIn(f) {
+			switch calleeFullName(call.Common()) {
+			case "(*github.com/spf13/cobra.Command).Execute", "(*github.com/spf13/cobra.Command).ExecuteC", "(*github.com/spf13/cobra.Command).ExecuteContext":
+				if len(call.Common().Args) > 0 {
+					objectsOf(call.Common().Args[0], 0)
+				}
+			}
+		}
+	}
+	for _, f := range c.Fns {
+		if Outermost(f).Pkg != c.Main {
+			continue
+		}
+		eachInstr(f, func(r instrRef) {
 			st, ok := r.In.(*ssa.Store)
 			if !ok {
 				return
 			}
 			fa, ok := st.Addr.(*ssa.FieldAddr)
-			if !ok {
+			if !ok || !rootObjs[strip(fa.X)] {
 				return
 			}
 			b, isB := constBool(st.Val)
@@ -521,6 +575,29 @@ func stringConstsIn(call ssa.CallInstruction) []string {
 		case *ssa.Phi:
 			for _, e := range x.Edges {
 				walk(e, d+1)
+			}
+		case *ssa.Call:
+			// a helper that hands its argument back unchanged on some path (emptyMsg("No tasks.") qualifying the sentence
+			// only when a filter is active)
+			if h := calleeOf(&x.Call); h != nil && h.Blocks != nil && curProg != nil && curProg.InModule(h) {
+				for _, r := range returnsOf(h) {
+					if len(r.Results) == 0 {
+						continue
+					}
+					var ps []ssa.Value
+					if ph, ok := strip(returnedValue(r, 0)).(*ssa.Phi); ok {
+						ps = ph.Edges
+					} else {
+						ps = []ssa.Value{returnedValue(r, 0)}
+					}
+					for _, pv := range ps {
+						if p, ok := strip(pv).(*ssa.Parameter); ok && p.Parent() == h {
+							if i := paramIndex(p); i >= 0 && i < len(x.Call.Args) {
+								walk(x.Call.Args[i], d+1)
+							}
+						}
+					}
+				}
 			}
 		}
 	}
